@@ -8,7 +8,7 @@ from __future__ import annotations
 
 import numpy as np
 
-from harness import bootstrap  # noqa: F401
+from harness import bootstrap
 from harness import c16_world as W
 from harness import c16_text as T
 from harness.tla_values import to_tla
@@ -18,18 +18,30 @@ B = (False, True)
 
 # --------------------------------------------------------------------------------------
 # configuration space of SaveLoad.tla (mirrors the MC sets below)
+NP_ARG0 = dict(snf=False, tol="unset", issym=True, dense=True, factor="unset")
+NO_CELLS = dict(ucfile=False, scfile=False, unitcell=False, supercell=False)
+
+
 def sample_cfg(rng, clean=None):
-    name = rng.choice(["nacl", "tetab", "tric", "fe2"])
+    name = rng.choice(["nacl", "tetab", "tric", "fe2", "tetsnf", "tetloose", "p4"])
     cell = dict(name=name, ext=rng.random() < 0.4,
                 mag=(rng.choice(["none", "col", "noncol"]) if name == "fe2" else "none"),
                 masses=rng.choice(["std", "c6", "c9"]), generic=rng.random() < 0.4)
+    cell.update(W.cell_attrs(name))
     t = rng.choice([0, 1, 1, 2, 2])
     ds = dict(type=t, forces=(t != 0 and rng.random() < 0.7), energies=(t != 0 and rng.random() < 0.4))
     kind = rng.choice(["none", "plain", "plain", "gonze", "wang"])
     fc = rng.choice(["none", "none", "full", "compact"])
+    if name == "p4" and fc == "compact":
+        fc = "full"  # primitive cell = supercell: one layout
+    # the options save() does not record
+    onp = dict(W.NP_OBJ0)
+    if rng.random() < 0.45 or name in ("tetsnf", "tetloose"):
+        onp.update(snf=rng.random() < 0.5, tol=rng.choice(["default", "loose"]), issym=rng.random() < 0.75,
+                   dense=rng.random() < 0.7, factor=rng.choice(["default", "default", "own"]))
     # (an object holding force constants cannot hold NAC parameters without a unit factor: KeyError in the API)
     obj = dict(cell=cell, calc=rng.choice(["none", "qe"]), ds=ds, fc=fc,
-               nac=dict(kind=kind, factor=(kind != "none" and (fc != "none" or rng.random() < 0.5))))
+               nac=dict(kind=kind, factor=(kind != "none" and (fc != "none" or rng.random() < 0.5))), np=onp)
 
     def tri(pf=0.25, pt=0.2):
         x = rng.random()
@@ -38,20 +50,48 @@ def sample_cfg(rng, clean=None):
     comp = rng.choice(["F", "T", "xz"])
     if clean is None:
         clean = rng.random() < 0.55
+    anp = dict(NP_ARG0)
+    r = rng.random()
+    if r < 0.3:      # the constructor's options repeated
+        anp.update(snf=onp["snf"], tol=onp["tol"], issym=onp["issym"], dense=onp["dense"],
+                   factor="own" if onp["factor"] == "own" else "unset")
+    elif r < 0.45:   # anything
+        anp.update(snf=rng.random() < 0.5, tol=rng.choice(["unset", "default", "loose"]), issym=rng.random() < 0.7,
+                   dense=rng.random() < 0.7, factor=rng.choice(["unset", "own"]))
     args = dict(isCompact=rng.random() < 0.6, produceFc=rng.random() < 0.8, isNac=rng.random() < 0.85,
-                nacArg=False, bornFile=False, fsFile=0, fcFile="none", calcArg="none", cellArg="none")
+                nacArg=False, bornFile=False, fsFile=0, fcFile="none", calcArg="none", cells=dict(NO_CELLS), fmt="vasp",
+                smatArg=False, pmatArg=False, np=anp)
     env = dict(FS=0, FC="none", H5="none", BORN=False)
     if not clean:
         args.update(nacArg=rng.random() < 0.2, bornFile=rng.random() < 0.2,
                     fsFile=rng.choice([0, 0, 0, 1, 2]), fcFile=rng.choice(["none"] * 4 + ["txtF", "txtC", "h5F", "h5C"]),
-                    calcArg=rng.choice(["none", "none", "none", "vasp", "qe"]),
-                    cellArg=rng.choice(["none"] * 5 + ["unitcell"]))
+                    calcArg=rng.choice(["none", "none", "none", "vasp", "qe"]))
         env.update(FS=rng.choice([0, 0, 1, 2]), FC=rng.choice(["none", "none", "full", "compact"]),
                    H5=rng.choice(["none", "none", "full", "compact"]), BORN=rng.random() < 0.35)
+        if rng.random() < 0.3 and name not in ("fe2", "tetloose"):
+            # crystal structure by argument(s): one or two of the four ways, files in one calculator's format
+            ks = ["ucfile", "scfile", "unitcell", "supercell"]
+            picked = [rng.choice(ks)]
+            if rng.random() < 0.4:
+                picked.append(rng.choice(ks))
+            cells = dict(NO_CELLS)
+            for k in picked:
+                cells[k] = True
+            both = rng.random() < 0.5
+            args.update(cells=cells, fmt=rng.choice(["vasp", "qe"]), smatArg=both or rng.random() < 0.3,
+                        pmatArg=both or rng.random() < 0.3, calcArg=rng.choice(["none", "vasp", "qe", "qe"]))
+            # structure files hold plain symbols; other sources of forces / force constants only when the
+            # cells (and hence the atom counts and primitive atoms) are those of the object
+            cell.update(ext=False, masses="std", generic=False)
+            src = [k for k in ks if cells[k]][0]
+            if not (args["smatArg"] and args["pmatArg"] and src in ("ucfile", "unitcell")):
+                args.update(fsFile=0, fcFile="none", nacArg=False, bornFile=False)
+                env.update(FS=0, FC="none", H5="none", BORN=False)
     return dict(obj=obj, st=st, comp=comp, args=args, env=env, big=rng.random() < 0.25)
 
 
-RAISED_DUMMY = dict(calc="none", units="std",
+RAISED_DUMMY = dict(calc="none", units="std", scale="same",
+                    cell=dict(src="none", smat="none"), np=dict(order="same", tol="default", issym=True, freq="default"),
                     ds=dict(src="none", type=0, forces=False, energies=False),
                     fc=dict(src="none", layout="none", sym=False),
                     nac=dict(src="none", method="none", factor="none"),
@@ -81,28 +121,36 @@ def run_one(cfg, seed, gonze_budget=1.0):
                 obs["err"] = "save:" + obs["err"]  # never accepted by ImplLoads
         else:
             obs["err"] = "none"
+            obs["scale"] = "same"
             q["phonons"] = -1
-            comparable = (cfg["args"]["calcArg"] == "none" and cfg["args"]["cellArg"] == "none"
+            comparable = (cfg["args"]["calcArg"] == "none" and obs["cell"]["src"] == "yaml"
+                          and obs["np"]["order"] == w.obj_order
                           and (obs["fc"]["src"] == "yaml" or (obs["fc"]["src"] == "produced" and obs["fc"]["sym"]
-                                                               and obs["ds"]["src"] == "yaml"))
+                                                               and obs["ds"]["src"] == "yaml"
+                                                               and obs["np"]["issym"] == bool(o["np"]["issym"])))
                           and ((o["nac"]["kind"] == "none" and obs["nac"]["src"] == "none") or obs["nac"]["src"] == "yaml"))
             if comparable:
                 costly = obs["nac"]["src"] == "yaml" and o["nac"]["kind"] != "wang"  # Gonze-Lee NAC: ~1 s per object
                 if costly and w.rng.random() >= gonze_budget:
                     q["phonons"] = -2  # comparable, skipped for the time budget (logged as such)
                 else:
-                    q["phonons"] = compare_phonons(w, ph, ph2, obs)
+                    q["phonons"], obs["scale"] = compare_phonons(w, ph, ph2, obs)
         ev = dict(eo=cfg["obj"], es=cfg["st"], ec=cfg["comp"], ea=cfg["args"], ee=cfg["env"],
                   w=wr, container=w.container, named="xz" if w.filename.endswith(".xz") else "plain", obs=obs,
                   big=bool(cfg.get("big")), wseed=seed)
-        return ev, dict(text=w.text, ph=ph, ph2=ph2, fc_exact=consistent_fc is None, ydoc=ydoc)
+        return ev, dict(text=w.text, ph=ph, ph2=ph2, fc_exact=consistent_fc is None, ydoc=ydoc, obj_order=w.obj_order)
 
 
 def compare_phonons(w, ph, ph2, obs):
     """frequencies of the reloaded object against those of the original (given the text-rounded masses
-    and the calculator's default NAC factor when the original has none)."""
+    and the calculator's default NAC factor when the original has none).  -> (error class, scale class):
+    the scale class is the observed common ratio reloaded/original of the frequencies (same, default/own,
+    own/default, other); the error class is that of the eigenvalues after removing this ratio."""
     o = w.cfg["obj"]
-    ref = W.new_phonopy(o)
+    # the reference lives on the lattice as it stands in the text (its agreement with the original to the written
+    # precision is q.lattice): the Gonze-Lee sum has a sharp reciprocal-space cutoff and jumps by 1e-7 when a
+    # lattice entry moves by 1e-16
+    ref = W.new_phonopy(o, lattice=np.array(ph2.unitcell.cell))
     ref.masses = np.round(ref.primitive.masses, 6)
     if obs["fc"]["src"] == "yaml":
         ref.force_constants = ph.force_constants
@@ -119,15 +167,23 @@ def compare_phonons(w, ph, ph2, obs):
         f1 = W.frequencies(ref)
         f2 = W.frequencies(ph2)
     except Exception:
-        return 9
+        return 9, "other"
+    big = np.abs(f1) > 1e-3 * max(1e-12, float(np.abs(f1).max()))
+    ratio = float(np.median(f2[big] / f1[big])) if big.any() else 1.0
+    d0 = W.DEFAULT_FACTOR[o["calc"]]
+    scale = "other"
+    for name, val in (("same", 1.0), ("default/own", d0 / W.OWN_FACTOR), ("own/default", W.OWN_FACTOR / d0)):
+        if abs(ratio - val) < 1e-6 * val:
+            scale, ratio = name, val
     # compared as eigenvalues of the dynamical matrix (sign(f) f^2): a frequency near zero is the square
     # root of a small eigenvalue and amplifies the last-digit noise of the text without bound
+    f2 = f2 / ratio
     l1, l2 = f1 * np.abs(f1), f2 * np.abs(f2)
-    scale = max(1.0, float(np.abs(l1).max()))
-    d = float(np.abs(l1 - l2).max()) / scale
+    norm = max(1.0, float(np.abs(l1).max()))
+    d = float(np.abs(l1 - l2).max()) / norm
     if d == 0.0:
-        return 0
-    return int(min(9, np.ceil(d / 1e-9)))
+        return 0, scale
+    return int(min(9, np.ceil(d / 1e-9))), scale
 
 
 MC_TRACE = """---- MODULE MC_SaveLoadTrace ----
@@ -145,6 +201,7 @@ CONSTANTS
  ArgsSet = {}
  Envs = {}
  HasFcSolver = FALSE
+ PinnedLoad = FALSE
  Events <- MCEvents
 CHECK_DEADLOCK FALSE
 INVARIANT ImplCalculator
@@ -156,6 +213,11 @@ INVARIANT ImplSaveRule
 INVARIANT ImplNoAmbientCapture
 INVARIANT ImplExplicitBeatsAmbient
 INVARIANT ImplLoads
+INVARIANT ImplAtomOrder
+INVARIANT ImplTolerance
+INVARIANT ImplSameOptions
+INVARIANT ImplCellPriority
+INVARIANT ImplPhononScale
 INVARIANT ImplCells
 INVARIANT ImplNumbers
 INVARIANT ImplPhonons
@@ -174,11 +236,46 @@ INVARIANT InvSaveRule
 INVARIANT InvNoAmbientCapture
 INVARIANT InvExplicitBeatsAmbient
 INVARIANT InvLoads
+INVARIANT InvAtomOrder
+INVARIANT InvTolerance
+INVARIANT InvSameOptions
+INVARIANT InvCellPriority
 """
 
 
+def focus_cfg(rng):
+    """a clean save/load whose phonons can be compared, with random constructor options / load() options: the block
+    that exercises the 'not persisted' options through to the frequencies"""
+    cfg = sample_cfg(rng, clean=True)
+    o = cfg["obj"]
+    name = rng.choice(["tetsnf", "tetloose", "nacl", "tric", "tetab"])
+    o["cell"].update(name=name, mag="none")
+    o["cell"].update(W.cell_attrs(name))
+    if rng.random() < 0.5:
+        o["ds"] = dict(type=1, forces=True, energies=False)
+        o["fc"] = rng.choice(["none", "full", "compact"])
+    else:
+        o["ds"] = dict(type=rng.choice([0, 2]), forces=False, energies=False)
+        o["fc"] = rng.choice(["full", "compact"])
+    o["nac"] = rng.choice([dict(kind="none", factor=False), dict(kind="wang", factor=True)])
+    o["np"] = dict(snf=rng.random() < 0.5, tol=rng.choice(["default", "loose"]), issym=rng.random() < 0.8,
+                   dense=rng.random() < 0.7, factor=rng.choice(["default", "own"]))
+    cfg["st"] = dict(fs="unset", disp="unset", fc=rng.choice(["unset", "T"]), born="unset", eps="unset")
+    a = cfg["args"]
+    a.update(produceFc=True, isNac=True)
+    r = rng.random()
+    if r < 0.4:
+        a["np"] = dict(NP_ARG0)
+    elif r < 0.8:
+        a["np"] = dict(snf=o["np"]["snf"], tol=o["np"]["tol"], issym=o["np"]["issym"], dense=o["np"]["dense"],
+                       factor="own" if o["np"]["factor"] == "own" else "unset")
+    cfg["big"] = False
+    return cfg
+
+
 def saveload_layer(ctx, col, replay_cfgs=None):
-    n = 220 if ctx.quick else 3000
+    n = 210 if ctx.quick else 3000
+    nfocus = 40 if ctx.quick else 500
     events, texts = [], []
     nprng = np.random.default_rng(ctx.seed + 77)
     if replay_cfgs is not None:
@@ -187,14 +284,16 @@ def saveload_layer(ctx, col, replay_cfgs=None):
         if replay_cfgs is not None:
             cfg, wseed = replay_cfgs[i]
         else:
-            cfg, wseed = sample_cfg(ctx.rng), ctx.seed * 100003 + i
+            cfg = focus_cfg(ctx.rng) if i >= n - nfocus else sample_cfg(ctx.rng)
+            wseed = ctx.seed * 100003 + i
         ev, aux = run_one(cfg, wseed, gonze_budget=1.0 if replay_cfgs is not None else (0.2 if ctx.quick else 0.5))
         events.append(ev)
         if aux["text"]:
             try:
                 T.yaml_events(col, aux["text"], aux["ph"], aux["ph2"], ev["obs"], origin="yaml#%d" % i,
                               cap=(1 if ctx.quick else 3), rng=nprng,
-                              cells_from_file=(cfg["args"].get("cellArg", "none") == "none"))
+                              cells_from_file=not any((cfg["args"].get("cells") or {}).values()),
+                              same_order=(ev["obs"]["np"]["order"] == aux["obj_order"]))
             except Exception as e:  # a saved file that is not YAML / not the documented layout
                 ctx.violation("text:yaml:Unreadable", "C16 the saved file cannot be walked as phonopy.yaml (%s: %s)" % (type(e).__name__, e),
                               dict(event=ev, error=repr(e)))
@@ -225,6 +324,13 @@ def saveload_layer(ctx, col, replay_cfgs=None):
         for k, v in (("status", o["status"]), ("ds.src", o["ds"]["src"]), ("ds.type", o["ds"]["type"]), ("fc.src", o["fc"]["src"]),
                      ("fc.layout", o["fc"]["layout"]), ("nac.src", o["nac"]["src"]), ("nac.factor", o["nac"]["factor"]),
                      ("calc", o["calc"]), ("container", e["container"]), ("cell", e["eo"]["cell"]["name"]),
+                     ("why", o["why"]), ("cell.src", o["cell"]["src"]), ("cell.smat", o["cell"]["smat"]),
+                     ("order(obj,loaded)", "%s,%s" % ("snf" if e["eo"]["np"]["snf"] and e["eo"]["cell"]["snfS"] else
+                                                        ("classic" if e["eo"]["cell"]["snfS"] else "same"), o["np"]["order"])),
+                     ("tol(obj,arg,loaded)", "%s,%s,%s" % (e["eo"]["np"]["tol"], e["ea"]["np"]["tol"], o["np"]["tol"])),
+                     ("issym(obj,loaded)", "%s,%s" % (e["eo"]["np"]["issym"], o["np"]["issym"])),
+                     ("factor(obj,loaded)", "%s,%s" % (e["eo"]["np"]["factor"], o["np"]["freq"])), ("scale", o["scale"]),
+                     ("partial_nac_written", e["w"]["nac"]["born"] != e["w"]["nac"]["eps"]),
                      ("ext", e["eo"]["cell"]["ext"]), ("mag", e["eo"]["cell"]["mag"]), ("masses", e["eo"]["cell"]["masses"]),
                      ("generic_lattice", e["eo"]["cell"]["generic"]), ("big_values", e["big"]),
                      ("phonons", {-2: "skipped(budget)", -1: "not comparable"}.get(o["q"]["phonons"], "compared"))):
@@ -238,41 +344,65 @@ def saveload_layer(ctx, col, replay_cfgs=None):
 MC_MODEL = r"""---- MODULE MC_SaveLoad ----
 EXTENDS SaveLoad
 B == BOOLEAN
-Cell0 == [name |-> "nacl", ext |-> FALSE, mag |-> "none", masses |-> "std", generic |-> FALSE]
+Cell0 == [name |-> "nacl", ext |-> FALSE, mag |-> "none", masses |-> "std", generic |-> FALSE, snfS |-> FALSE, fragile |-> FALSE, sid |-> TRUE]
 DsAll == {[type |-> 0, forces |-> FALSE, energies |-> FALSE]} \cup
          {[type |-> t, forces |-> f, energies |-> e] : t \in {1, 2}, f \in B, e \in B}
 NacAll == {[kind |-> "none", factor |-> FALSE]} \cup {[kind |-> k, factor |-> f] : k \in {"plain", "gonze", "wang"}, f \in B}
 Tri == {"unset", "T", "F"}
 Calcs == %(calcs)s
 CalcArgs == %(calcargs)s
+(* defaults of the fields a run does not vary (record merge) *)
+ObjD == [np |-> NpObj0]
+ArgD == [cells |-> NoCells, fmt |-> "vasp", smatArg |-> FALSE, pmatArg |-> FALSE, np |-> NpArg0]
+UnitcellArg(g) == [cells |-> [NoCells EXCEPT !.unitcell = g], fmt |-> "vasp", smatArg |-> TRUE, pmatArg |-> TRUE, np |-> NpArg0]
 (* run A: dataset / force-constants chain (NAC fixed) *)
-ObjsA == {[cell |-> Cell0, calc |-> c, ds |-> d, fc |-> f, nac |-> [kind |-> "plain", factor |-> TRUE]] :
+ObjsA == {[cell |-> Cell0, calc |-> c, ds |-> d, fc |-> f, nac |-> [kind |-> "plain", factor |-> TRUE]] @@ ObjD :
             c \in Calcs, d \in DsAll, f \in {"none", "full", "compact"}}
 StsA == {[fs |-> a, disp |-> b, fc |-> c, born |-> "unset", eps |-> "unset"] : a \in %(sw)s, b \in %(sw)s, c \in Tri}
-ArgsA == {[isCompact |-> a, produceFc |-> b, isNac |-> TRUE, nacArg |-> FALSE, bornFile |-> FALSE, fsFile |-> c, fcFile |-> d, calcArg |-> e, cellArg |-> "none"] :
-            a \in B, b \in B, c \in {0, 1, 2}, d \in %(fcfiles)s, e \in CalcArgs}
+ArgsA == {[isCompact |-> a, produceFc |-> b, isNac |-> TRUE, nacArg |-> FALSE, bornFile |-> FALSE, fsFile |-> c, fcFile |-> d, calcArg |-> e] @@ ArgD :
+            a \in B, b \in B, c \in %(fs01)s, d \in %(fcfiles)s, e \in CalcArgs}
 EnvsA == {[FS |-> a, FC |-> b, H5 |-> c, BORN |-> FALSE] : a \in {0, 1, 2}, b \in {"none", "full", "compact"}, c \in %(h5)s}
 (* run B: NAC chain (dataset / force constants fixed) *)
-ObjsB == {[cell |-> Cell0, calc |-> c, ds |-> [type |-> 1, forces |-> TRUE, energies |-> FALSE], fc |-> "none", nac |-> n] :
+ObjsB == {[cell |-> Cell0, calc |-> c, ds |-> [type |-> 1, forces |-> TRUE, energies |-> FALSE], fc |-> "none", nac |-> n] @@ ObjD :
             c \in {"none", "qe"}, n \in NacAll}
 StsB == {[fs |-> x, disp |-> y, fc |-> "unset", born |-> a, eps |-> b] : a \in Tri, b \in Tri, x \in %(swb)s, y \in %(swb)s}
-ArgsB == {[isCompact |-> TRUE, produceFc |-> TRUE, isNac |-> a, nacArg |-> b, bornFile |-> c, fsFile |-> 0, fcFile |-> "none", calcArg |-> e, cellArg |-> g] :
-            a \in B, b \in B, c \in B, e \in {"none", "vasp", "qe"}, g \in {"none", "unitcell"}}
+ArgsB == {[isCompact |-> TRUE, produceFc |-> TRUE, isNac |-> a, nacArg |-> b, bornFile |-> c, fsFile |-> 0, fcFile |-> "none", calcArg |-> e] @@ UnitcellArg(g) :
+            a \in B, b \in B, c \in B, e \in {"none", "vasp", "qe"}, g \in B}
 EnvsB == {[FS |-> 0, FC |-> "none", H5 |-> "none", BORN |-> a] : a \in B}
-(* run C: crystal structure by argument (the saved file is then not parsed) *)
-ObjsC == {[cell |-> Cell0, calc |-> "qe", ds |-> d, fc |-> f, nac |-> [kind |-> "plain", factor |-> TRUE]] :
+(* run C: the unit cell by argument (the saved file is then not parsed), all other sources *)
+ObjsC == {[cell |-> Cell0, calc |-> "qe", ds |-> d, fc |-> f, nac |-> [kind |-> "plain", factor |-> TRUE]] @@ ObjD :
             d \in DsAll, f \in {"none", "full", "compact"}}
 StsC == {[fs |-> "unset", disp |-> "unset", fc |-> c, born |-> "unset", eps |-> "unset"] : c \in Tri}
-ArgsC == {[isCompact |-> a, produceFc |-> b, isNac |-> TRUE, nacArg |-> n, bornFile |-> FALSE, fsFile |-> c, fcFile |-> d, calcArg |-> e, cellArg |-> g] :
-            a \in B, b \in B, n \in B, c \in {0, 1}, d \in {"none", "txtF"}, e \in {"none", "vasp"}, g \in {"none", "unitcell"}}
+ArgsC == {[isCompact |-> a, produceFc |-> b, isNac |-> TRUE, nacArg |-> n, bornFile |-> FALSE, fsFile |-> c, fcFile |-> d, calcArg |-> e] @@ UnitcellArg(g) :
+            a \in %(cB)s, b \in B, n \in %(cB)s, c \in {0, 1}, d \in {"none", "txtF"}, e \in {"none", "vasp"}, g \in B}
 EnvsC == {[FS |-> a, FC |-> b, H5 |-> "none", BORN |-> c] : a \in {0, 2}, b \in {"none", "full"}, c \in B}
 (* run D: the documented priority order of phonopy.load against the implemented one *)
-ObjsD == {[cell |-> Cell0, calc |-> "none", ds |-> [type |-> 1, forces |-> TRUE, energies |-> FALSE], fc |-> f, nac |-> [kind |-> "plain", factor |-> TRUE]] :
+ObjsD == {[cell |-> Cell0, calc |-> "none", ds |-> [type |-> 1, forces |-> TRUE, energies |-> FALSE], fc |-> f, nac |-> [kind |-> "plain", factor |-> TRUE]] @@ ObjD :
             f \in {"none", "full"}}
 StsD == {[fs |-> "unset", disp |-> "unset", fc |-> c, born |-> b, eps |-> "unset"] : c \in {"unset", "T"}, b \in {"unset", "F"}}
-ArgsD == {[isCompact |-> TRUE, produceFc |-> TRUE, isNac |-> TRUE, nacArg |-> FALSE, bornFile |-> FALSE, fsFile |-> c, fcFile |-> d, calcArg |-> "none", cellArg |-> "none"] :
+ArgsD == {[isCompact |-> TRUE, produceFc |-> TRUE, isNac |-> TRUE, nacArg |-> FALSE, bornFile |-> FALSE, fsFile |-> c, fcFile |-> d, calcArg |-> "none"] @@ ArgD :
             c \in {0, 1}, d \in {"none", "txtF"}}
 EnvsD == {[FS |-> 0, FC |-> b, H5 |-> "none", BORN |-> FALSE] : b \in {"none", "full"}}
+(* run E: the options save() does not record, as constructor options and as arguments of load() *)
+NpObjAll == {[snf |-> a, tol |-> b, issym |-> c, dense |-> d, factor |-> e] : a \in B, b \in {"default", "loose"}, c \in B, d \in B, e \in {"default", "own"}}
+NpArgAll == {[snf |-> a, tol |-> b, issym |-> c, dense |-> d, factor |-> e] : a \in B, b \in {"unset", "default", "loose"}, c \in B, d \in B, e \in {"unset", "own"}}
+ObjsE == {[cell |-> [Cell0 EXCEPT !.snfS = s, !.fragile = fr, !.sid = ~s], calc |-> "none", ds |-> [type |-> 1, forces |-> df, energies |-> FALSE],
+           fc |-> f, nac |-> [kind |-> "none", factor |-> FALSE], np |-> n] : s \in B, fr \in B, df \in B, f \in {"none", "full"}, n \in NpObjAll}
+StsE == {[fs |-> "unset", disp |-> "unset", fc |-> "unset", born |-> "unset", eps |-> "unset"]}
+ArgsE == {[isCompact |-> TRUE, produceFc |-> TRUE, isNac |-> TRUE, nacArg |-> FALSE, bornFile |-> FALSE, fsFile |-> 0, fcFile |-> "none", calcArg |-> "none",
+           cells |-> NoCells, fmt |-> "vasp", smatArg |-> FALSE, pmatArg |-> FALSE, np |-> n] : n \in NpArgAll}
+EnvsE == {[FS |-> 0, FC |-> "none", H5 |-> "none", BORN |-> FALSE]}
+(* run P: the two sensitive cells, default arguments of load() - for the pinned variant of load() *)
+ObjsP == {[cell |-> [Cell0 EXCEPT !.snfS = TRUE, !.fragile = TRUE, !.sid = FALSE], calc |-> "none", ds |-> [type |-> 1, forces |-> TRUE, energies |-> FALSE],
+           fc |-> "none", nac |-> [kind |-> "none", factor |-> FALSE], np |-> [NpObj0 EXCEPT !.snf = a, !.tol = b]] : a \in B, b \in {"default", "loose"}}
+ArgsP == {[isCompact |-> TRUE, produceFc |-> TRUE, isNac |-> TRUE, nacArg |-> FALSE, bornFile |-> FALSE, fsFile |-> 0, fcFile |-> "none", calcArg |-> "none"] @@ ArgD}
+(* run F: crystal structure by argument(s): every subset of the four ways, file format against calculator *)
+CellsAll == {[ucfile |-> a, scfile |-> b, unitcell |-> c, supercell |-> d] : a \in B, b \in B, c \in B, d \in B}
+ObjsF == {[cell |-> [Cell0 EXCEPT !.fragile = fr, !.sid = i], calc |-> c, ds |-> [type |-> 1, forces |-> TRUE, energies |-> FALSE], fc |-> "none",
+           nac |-> [kind |-> "plain", factor |-> TRUE], np |-> [NpObj0 EXCEPT !.tol = t]] : fr \in B, i \in B, c \in {"none", "qe"}, t \in {"default", "loose"}}
+ArgsF == {[isCompact |-> TRUE, produceFc |-> TRUE, isNac |-> TRUE, nacArg |-> FALSE, bornFile |-> FALSE, fsFile |-> 0, fcFile |-> "none", calcArg |-> e,
+           cells |-> cs, fmt |-> fm, smatArg |-> sm, pmatArg |-> pm, np |-> [NpArg0 EXCEPT !.tol = t]] :
+            e \in {"none", "vasp", "qe"}, cs \in CellsAll, fm \in {"vasp", "qe"}, sm \in B, pm \in B, t \in {"unset", "default"}}
 ====
 """
 
@@ -284,13 +414,16 @@ CONSTANTS
  ArgsSet <- Args%(r)s
  Envs <- Envs%(r)s
  HasFcSolver = %(solver)s
+ PinnedLoad = %(pinned)s
 CHECK_DEADLOCK FALSE
 INVARIANT TypeOK
 %(invs)s
 """
 
 REQ_INVS = ["InvCalculator", "InvDataset", "InvForceConstants", "InvNac", "InvPhononsFromSaved", "InvSaveRule",
-            "InvNoAmbientCapture", "InvExplicitBeatsAmbient", "InvLoads", "InvWrittenSubset"]
+            "InvNoAmbientCapture", "InvExplicitBeatsAmbient", "InvLoads", "InvWrittenSubset",
+            "InvAtomOrder", "InvTolerance", "InvSameOptions", "InvCellPriority"]
+NP_INVS = ["InvAtomOrder", "InvTolerance", "InvLoads", "InvSameOptions"]
 DOC_INVS = ["DocOrderFC", "DocOrderFS", "DocOrderYamlForces", "PartialNacLoadable"]
 
 
@@ -299,17 +432,22 @@ def model_layer(ctx):
     factorised into the dataset/force-constants chain (A) and the NAC chain (B), which share no variable."""
     if ctx.quick:
         par = dict(calcs='{"none"}', calcargs='{"none"}', sw='{"unset", "F"}', fcfiles='{"none", "h5C"}',
-                   h5='{"none", "full"}', swb='{"unset"}')
+                   h5='{"none", "full"}', swb='{"unset"}', fs01='{0, 2}', cB='{TRUE}')
         compsA = '{"F"}'
     else:
         par = dict(calcs='{"none", "qe"}', calcargs='{"none", "vasp"}', sw='{"unset", "F"}',
-                   fcfiles='{"none", "txtF", "txtC", "h5F", "h5C"}', h5='{"none", "full", "compact"}', swb='Tri')
+                   fcfiles='{"none", "txtF", "txtC", "h5F", "h5C"}', h5='{"none", "full", "compact"}', swb='Tri',
+                   fs01='{0, 1, 2}', cB='B')
         compsA = '{"F", "xz"}'
     mc = MC_MODEL % par
     inv = "\n".join("INVARIANT " + i for i in REQ_INVS)
+    envs = dict(E="StsE", F="StsE")
     for r, comps, solver in (("A", compsA, "FALSE"), ("B", '{"F", "T", "xz"}', "FALSE"), ("C", '{"F"}', "FALSE"),
-                             ("B", '{"F"}', "TRUE")):
-        res = ctx.tlc("MC_SaveLoad", cfg_text=CFG_MODEL % dict(r=r, comps=comps, solver=solver, invs=inv),
+                             ("E", '{"F"}', "FALSE"), ("F", '{"F"}', "FALSE"), ("B", '{"F"}', "TRUE")):
+        cfg_text = CFG_MODEL % dict(r=r, comps=comps, solver=solver, invs=inv, pinned="FALSE")
+        if r == "F":
+            cfg_text = cfg_text.replace("Sts <- StsF", "Sts <- StsE").replace("Envs <- EnvsF", "Envs <- EnvsE")
+        res = ctx.tlc("MC_SaveLoad", cfg_text=cfg_text,
                       extra_files={"MC_SaveLoad.tla": mc}, requirement=True, workers=8,
                       coverage=(r == "B" and solver == "TRUE"))
         if r == "B" and solver == "TRUE":
@@ -321,7 +459,7 @@ def model_layer(ctx):
                 raise MachineryError("SaveLoad action never fired: %s" % cov)
     # documented order vs implemented order: violations expected (DocDeviation, not C16)
     dev = {name: dict(reachable=False) for name in DOC_INVS}
-    res = ctx.tlc("MC_SaveLoad", cfg_text=CFG_MODEL % dict(r="D", comps='{"F"}', solver="FALSE",
+    res = ctx.tlc("MC_SaveLoad", cfg_text=CFG_MODEL % dict(r="D", comps='{"F"}', solver="FALSE", pinned="FALSE",
                                                           invs="\n".join("INVARIANT " + i for i in DOC_INVS)),
                   extra_files={"MC_SaveLoad.tla": mc}, requirement=False, workers=1, extra_args=("-continue",))
     for name, tr in res.violations:
@@ -330,6 +468,20 @@ def model_layer(ctx):
             dev[name] = dict(reachable=True, witness=dict(obj=stt.get("obj"), st=stt.get("st"), args=stt.get("args"),
                                                            env=stt.get("env"), loaded=stt.get("ld")))
     ctx.extra["DocDeviation"] = dev
+    # load() as in the pinned tree (saved supercell order and tolerance ignored): the requirement on the options that
+    # are not persisted fails on the specification alone - recorded; the finding is established on the real code
+    pinned = {}
+    cfgp = CFG_MODEL % dict(r="P", comps='{"F"}', solver="FALSE", pinned="TRUE",
+                            invs="\n".join("INVARIANT " + n for n in ("InvAtomOrder", "InvTolerance", "InvLoads")))
+    cfgp = cfgp.replace("Sts <- StsP", "Sts <- StsE").replace("Envs <- EnvsP", "Envs <- EnvsE")
+    res = ctx.tlc("MC_SaveLoad", cfg_text=cfgp, extra_files={"MC_SaveLoad.tla": mc}, requirement=False, workers=1,
+                  extra_args=("-continue",))
+    for name, tr in res.violations:
+        if name not in pinned and tr:
+            stt = tr[-1][1]
+            pinned[name] = dict(obj_np=stt.get("obj", {}).get("np"), cell=stt.get("obj", {}).get("cell"),
+                                args_np=stt.get("args", {}).get("np"), loaded=stt.get("ld"))
+    ctx.extra["pinned_load_model"] = pinned
     ctx.assumptions.append("DocDeviation (DESIGN 7/D16): the priority order in the docstring of phonopy.load (file-name arguments and "
                            "yaml forces before ambient FORCE_CONSTANTS) is not the implemented one; SaveLoad.tla follows the code, "
                            "the documented order is evaluated separately (DocOrder* reachable violations recorded in the evidence) "
@@ -599,6 +751,86 @@ def codec_layer(ctx, col):
         ctx.violation("born:" + name, "C16 BORN write/parse: %s fails on the real code" % name, dict(invariant=name, event=e))
 
 
+MC_COMPAT_MODEL = r"""---- MODULE MC_YamlCompat ----
+EXTENDS YamlCompat
+B == BOOLEAN
+MCContents == {[nac |-> [present |-> p, factor |-> p /\ f, method |-> IF p THEN m ELSE "none"],
+                ds |-> [type |-> t, forces |-> t # 0 /\ fo, energies |-> t # 0 /\ en], cells |-> cl] :
+                 p \in B, f \in B, m \in {"none", "gonze", "wang"}, t \in {0, 1, 2}, fo \in B, en \in B, cl \in {"all", "unit"}}
+MCLayouts == {[atoms |-> a, nacAt |-> n, dsAs |-> d, natom |-> k] :
+                a \in {"points", "atoms"}, n \in {"nested", "top"}, d \in {"cur", "v223"}, k \in {"supercell", "key", "no"}}
+====
+"""
+CFG_COMPAT_MODEL = """SPECIFICATION Spec
+CONSTANTS
+ Contents <- MCContents
+ Layouts <- MCLayouts
+CHECK_DEADLOCK FALSE
+INVARIANT InvLayoutIndependent
+INVARIANT InvLoads
+"""
+MC_COMPAT = """---- MODULE MC_YamlCompatTrace ----
+EXTENDS YamlCompatTrace
+MCEvents == {%s}
+====
+"""
+CFG_COMPAT = """INIT TInit
+NEXT TNext
+CONSTANTS
+ Contents = {}
+ Layouts = {}
+ Events <- MCEvents
+CHECK_DEADLOCK FALSE
+INVARIANT ImplLayoutIndependent
+INVARIANT ImplLoads
+INVARIANT ImplNumbers
+INVARIANT ImplResave
+INVARIANT ConformsGot
+"""
+
+
+def compat_layer(ctx):
+    """older layouts of phonopy.yaml: the repository's fixtures (read-only) and re-laid-out files of the C16 world"""
+    import tempfile, shutil, os
+    from harness import c16_compat as K
+    r = ctx.tlc("MC_YamlCompat", cfg_text=CFG_COMPAT_MODEL, extra_files={"MC_YamlCompat.tla": MC_COMPAT_MODEL},
+                requirement=True, workers=4, coverage=True)
+    cov = {a: r.coverage.get(a, (0, 0))[1] for a in ("Choose", "Write", "ParseDataset", "ParseNac")}
+    ctx.extra.setdefault("coverage_actions_other", {})["YamlCompat"] = cov
+    if any(v == 0 for v in cov.values()):
+        from harness.tlc import MachineryError
+        raise MachineryError("an action of YamlCompat never fired: %s" % cov)
+    nprng = np.random.default_rng(ctx.seed + 31)
+    tmp = tempfile.mkdtemp(prefix="c16k_", dir=os.path.join(W.VERIF, ".run"))
+    try:
+        evs = [K.fixture_event(p, tmp) for p in K.fixtures(bootstrap.REPO)]
+        evs += K.legacy_events(nprng, 10 if ctx.quick else 120, tmp)
+    finally:
+        shutil.rmtree(tmp, ignore_errors=True)
+    ctx.traces += len(evs)
+    lay = {}
+    for e in evs:
+        ctx.count(("compat", e["name"]))
+        k = "%s:%s" % (e["kindOf"], "-".join(str(e["ly"][x]) for x in ("atoms", "nacAt", "dsAs", "natom")))
+        lay[k] = lay.get(k, 0) + 1
+    ctx.extra["compat_events"] = dict(fixtures=sum(1 for e in evs if e["kindOf"] == "fixture"),
+                                      relaid=sum(1 for e in evs if e["kindOf"] == "legacy"), layouts=lay,
+                                      raised=sorted(set(e["obs"]["err"] for e in evs if e["obs"]["status"] != "ok")))
+    tl = [dict(nm=e["name"], ly=e["ly"], ct=e["ct"], obs={k: v for k, v in e["obs"].items() if k != "err"}) for e in evs]
+    res = ctx.tlc("MC_YamlCompatTrace", cfg_text=CFG_COMPAT,
+                  extra_files={"MC_YamlCompatTrace.tla": MC_COMPAT % ",\n".join(to_tla(e) for e in tl)},
+                  requirement=False, extra_args=("-continue",), workers=2)
+    seen = set()
+    for name, tr in res.violations:
+        e = tr[-1][1].get("ev", {}) if tr else {}
+        lk = "-".join(str((e.get("ly") or {}).get(x)) for x in ("atoms", "nacAt", "dsAs", "natom"))
+        key = "compat:%s:%s" % (lk, name)
+        if key in seen:
+            continue
+        seen.add(key)
+        ctx.violation(key, "C16 older phonopy.yaml layout: %s fails for %s" % (name, e.get("nm")), dict(invariant=name, event=e))
+
+
 ASSUMPTIONS = [
     "The original object is set up with its calculator's default unit factors (frequency factor; NAC factor when the "
     "NAC parameters carry none): load() always takes the calculator's defaults, frequency_unit_conversion_factor of the "
@@ -646,8 +878,11 @@ def run(ctx):
         return
     if not os.environ.get("C16_DEV_SKIP_MODEL"):
         model_layer(ctx)
+    if os.environ.get("C16_DEV_ONLY_MODEL"):
+        return
     events, texts, violated = saveload_layer(ctx, col)
     codec_layer(ctx, col)
+    compat_layer(ctx)
     text_layer(ctx, col)
     _drift_to_violation(ctx, violated)
 
